@@ -171,6 +171,10 @@ enum C04Case {
     Assign(Assign),
     /// one string field replaced: 0 name, 1 domain, 2 user, 3 password; with NLA on/off
     Str(usize, String, bool),
+    /// length sweep: field (1 domain, 2 user, 3 password) = 'x' repeated `units` times, server version index, NLA on/off:
+    /// every emitted length field (PER send-data length, DER TSCredentials lengths, NTLM descriptors, cb* fields)
+    /// walks across its 7-bit / 8-bit encoding boundaries
+    Len(usize, usize, usize, bool),
 }
 
 pub struct C04 {
@@ -202,6 +206,16 @@ impl Prop for C04 {
                 }
             }
         }
+        let max_units = if tier == Tier::Quick { 140 } else { 300 };
+        for ver in [0usize, 1] {
+            for field in 1..4 {
+                for nla in [false, true] {
+                    for units in 0..=max_units {
+                        cs.push(C04Case::Len(ver, field, units, nla));
+                    }
+                }
+            }
+        }
         self.cases = cs;
         Ok(())
     }
@@ -210,6 +224,7 @@ impl Prop for C04 {
     }
     fn describe(&self, idx: u64) -> Value {
         match &self.cases[idx as usize] {
+            C04Case::Len(ver, f, units, nla) => json!({"idx": idx, "field": (["client name", "domain", "user", "password"][*f]), "value": format!("'x' x {}", units), "server_version_index": ver, "use_nla": nla}),
             C04Case::Assign(a) => {
                 let mut d = describe_assign(a);
                 d["idx"] = json!(idx);
@@ -219,7 +234,7 @@ impl Prop for C04 {
         }
     }
     fn rule(&self) -> String {
-        "cases = full conversations (as C03) whose every client message is parsed by the strict reference parsers: TPKT/X.224, BER connect-initial, PER conference-create-request (length = 14 + blocks), CS_CORE/CS_SECURITY/CS_NET block lengths, clientName = 32 bytes holding <=15 UTF-16 units + NUL, info packet cb* fields / terminators / extended info, share control totalLength, share data lengths, confirm-active counts and per-type capability sizes, input PDU numEvents, NTLM NEGOTIATE/AUTHENTICATE descriptor triples, strict DER TSRequest/TSCredentials. Configurations: default, every single alternative and every pair of the 22 C03 dimensions (every triple in thorough), and every string of the Unicode alphabet (class^len for class in {a, é, 日, 😀} x len in {0,1,7,8,15,16,17,31,32,64}, every mixed string of <=3 code points) as client name, domain, user and password, with NLA on and off. Non-trivial: every case but the default.".into()
+        "cases = full conversations (as C03) whose every client message is parsed by the strict reference parsers: TPKT/X.224, BER connect-initial, PER conference-create-request (length = 14 + blocks), CS_CORE/CS_SECURITY/CS_NET block lengths, clientName = 32 bytes holding <=15 UTF-16 units + NUL, info packet cb* fields / terminators / extended info, share control totalLength, share data lengths, confirm-active counts and per-type capability sizes, input PDU numEvents, NTLM NEGOTIATE/AUTHENTICATE descriptor triples, strict DER TSRequest/TSCredentials. Configurations: default, every single alternative and every pair of the 22 C03 dimensions (every triple in thorough), and every string of the Unicode alphabet (class^len for class in {a, é, 日, 😀} x len in {0,1,7,8,15,16,17,31,32,64}, every mixed string of <=3 code points) as client name, domain, user and password, with NLA on and off; plus the length sweep: domain, user and password of every length 0..140 UTF-16 units (0..300 thorough) against an RDP5 and an RDP4 server (info packet with and without extended info), NLA on and off, so that every emitted length field crosses its 0x7f/0x80 and 0xff/0x100 encoding boundaries. Non-trivial: every case but the default.".into()
     }
     fn assumptions(&self) -> Vec<String> {
         vec![
@@ -252,6 +267,23 @@ impl Prop for C04 {
                     _ => c.client.password = s,
                 }
                 (c, p, format!("string-{}", ["name", "domain", "user", "password"][f]))
+            }
+            C04Case::Len(ver, f, units, nla) => {
+                let mut c = ConnCfg::default();
+                let mut p = ServerParams::default();
+                c.use_nla = nla;
+                p.selected = if nla { 2 } else { 1 };
+                p.version = [0x00080004u32, 0x00080001][ver];
+                c.client.domain = "".into();
+                c.client.user = "u".into();
+                c.client.password = "pw".into();
+                let s = "x".repeat(units);
+                match f {
+                    1 => c.client.domain = s,
+                    2 => c.client.user = s,
+                    _ => c.client.password = s,
+                }
+                (c, p, format!("length-sweep-v{}", ver))
             }
         };
         let t = match converse(&c, &p, Cert::A, true) {
